@@ -207,6 +207,8 @@ class DryReal:
                     bad = True
                     break
                 predicted[path] = sep.join(new_lines).encode("utf-8")
+                if path in base.links:
+                    predicted[base.links[path]] = predicted[path]     # written through the link
             if bad:
                 continue
             if predicted != rb_.after:
